@@ -54,6 +54,9 @@ D30 = datetime.date(2030, 1, 1)
 D85 = datetime.date(1985, 7, 1)
 
 
+E_ALIAS = gc.Ellipsoid(6378137, 275.0)      # same semi-major axis as GRS80, different flattening
+
+
 def A(x):
     return np.array(x, dtype=float)
 
@@ -115,14 +118,39 @@ ALPHABET = {
     'coord_geo_tm_cart': lambda: ((lambda c: (c.tm(), c.cart(), c.notation(ga.DMSAngle))),
                                   [gco.CoordGeo(ga.DECAngle(-23.67), ga.DECAngle(133.88), 603.2, 588.1)]),
     'coord_cart_geo': lambda: ((lambda c: c.geo()), [gco.CoordCart(X, Y, Z, 12.5)]),
+    # --- aliasing twins: same coordinates / labels / epochs as another call of the alphabet but a different ellipsoid,
+    # projection or parameter set (a memo keyed too coarsely answers them with the other call's value)
+    'geo2grid_ans': lambda: (gv.geo2grid, [-33.5, 151.2, 0, gc.ans]),
+    'geo2grid_e635': lambda: (gv.geo2grid, [-33.5, 151.2, 0, E_ALIAS]),
+    'grid2geo_ans': lambda: (gv.grid2geo, [53, 386352.3979, 7381850.7689, 'south', gc.ans]),
+    'grid2geo_e635': lambda: (gv.grid2geo, [53, 386352.3979, 7381850.7689, 'south', E_ALIAS]),
+    'llh2xyz_ans': lambda: (gv.llh2xyz, [-37.8, 144.97, 39.65, gc.ans]),
+    'xyz2llh_e635': lambda: (gv.xyz2llh, [X, Y, Z, E_ALIAS]),
+    'vincinv_alias': lambda: (gg.vincinv, [-37.95103342, 144.42486789, -37.65282114, 143.92649553, gc.intl24]),
+    'vincdir_alias': lambda: (gg.vincdir, [-37.95103342, 144.42486789, 306.86815920, 54972.271, gc.intl24]),
+    'conform14_i2020_14': lambda: (gt.conform14, [X, Y, Z, D30, gc.itrf2020_to_itrf2014]),
+    'conform14_i2020_14_vel': lambda: (gt.conform14, [X, Y, Z, D30, gc.itrf2020_to_itrf2014_vel]),
+    'conform14_user_alias': lambda: (gt.conform14, [X, Y, Z, D30, gc.Transformation(
+        'ITRF2014', 'GDA2020', datetime.date(2020, 1, 1), 0.01, -0.02, 0.03, 0.004, 0.001, -0.002, 0.003,
+        0.001, 0.002, -0.003, 0.0001, 0.0005, -0.0004, 0.0003)]),
+    'conform7_user_alias': lambda: (gt.conform7, [X, Y, Z, gc.Transformation('GDA94', 'GDA2020', 0, 1.0, -2.0, 3.0, 0.5, 0.1, -0.2, 0.3)]),
+    # --- caller-owned arrays in unusual but legal storage (upper-triangular, not exactly symmetric, non-contiguous)
+    'conform7_vcv_upper': lambda: (gt.conform7, [X, Y, Z, gc.gda94_to_gda2020, A([[1e-4, 2e-5, -1e-5], [0.0, 4e-4, 3e-5], [0.0, 0.0, 9e-4]])]),
+    'conform14_vcv_asym': lambda: (gt.conform14, [X, Y, Z, D30, gc.itrf2008_to_gda94,
+                                                  A([[1e-4, 2e-5, -1e-5], [2.0000000000000003e-5, 4e-4, 3e-5], [-1e-5, 3.0000000000000004e-5, 9e-4]])]),
+    'vcv_cart2local_view': lambda: (gs.vcv_cart2local, [np.asfortranarray(A(V33)), -33.5, 151.2]),
+    'vcv_cart2local_p2': lambda: (gs.vcv_cart2local, [A(V33), -33.5, 151.2]),
+    'mga2020_to_mga94_vcv_p2': lambda: (gt.transform_mga2020_to_mga94, [55, 300000.0, 6200000.0, 10.0, A(V31)]),
+    'precise_inst_ht_sorted': lambda: (gsv.precise_inst_ht, [[92.0, 91.0, 90.0, 89.0], 0.5, 0.1]),
 }
 NAMES = sorted(ALPHABET)
 # the seam: calls that reach a Transformation / TransformationSD / module-level table, used for schedule exploration
 SEAM = ['conform7_vcv', 'conform7_rev_vcv', 'conform14_apm_vcv', 'conform14_apm_rev', 'conform14_itrf08_vcv',
         'conform14_itrf08_rev', 'add_date', 'add_date_apm', 'neg_t', 'atrf2014_to_gda2020_vcv', 'gda2020_to_atrf2014_vcv',
-        'mga94_to_mga2020_vcv', 'k_val95', 'geo2grid_isg', 'coord_geo_tm_cart']
-BOUND2_QUICK = [('add_date', 'add_date'), ('conform7_vcv', 'conform7_rev_vcv')]
-BOUND2_PAIRS = BOUND2_QUICK + [('conform14_apm_vcv', 'conform14_apm_vcv'), ('conform14_itrf08_rev', 'conform14_itrf08_vcv'),
+        'mga94_to_mga2020_vcv', 'k_val95', 'geo2grid_isg', 'coord_geo_tm_cart', 'vcv_cart2local', 'vcv_cart2local_p2',
+        'mga2020_to_mga94_vcv_p2', 'conform14_user_alias']
+BOUND2_QUICK = [('add_date', 'add_date')]
+BOUND2_PAIRS = BOUND2_QUICK + [('conform7_vcv', 'conform7_rev_vcv'), ('conform14_apm_vcv', 'conform14_apm_vcv'), ('conform14_itrf08_rev', 'conform14_itrf08_vcv'),
                                ('add_date_apm', 'conform14_apm_rev')]
 
 
@@ -308,96 +336,152 @@ def dirty_modules():
 def gen_sched(tier, seed):
     # unordered pairs: the first scheduling decision is free, so [a, b] and [b, a] have the same interleavings
     b2 = BOUND2_PAIRS if tier == 'thorough' else BOUND2_QUICK
-    for i, a in enumerate(SEAM):
-        for b in SEAM[i:]:
-            yield {'threads': [a, b], 'bound': 2 if ((a, b) in b2 or (b, a) in b2) else 1}
+    nparts = 8
+    # quick: the reverse-direction / wrapper twins of calls already in the seam are left to the thorough tier
+    seam = SEAM if tier == 'thorough' else [n for n in SEAM if n not in (
+        'conform14_apm_rev', 'conform14_itrf08_rev', 'gda2020_to_atrf2014_vcv', 'atrf2014_to_gda2020_vcv', 'add_date_apm')]
+    for i, a in enumerate(seam):
+        for b in seam[i:]:
+            if (a, b) in b2 or (b, a) in b2:
+                for k in range(nparts):
+                    yield {'threads': [[a], [b]], 'bound': 2, 'part': [k, nparts]}
+            else:
+                yield {'threads': [[a], [b]], 'bound': 1}
+    # two calls in one thread against one call in the other (a later call in the same thread reads what the
+    # interleaving left behind)
+    for a, b in (('vcv_cart2local_p2', 'vcv_cart2local'), ('conform14_itrf08_vcv', 'add_date'), ('k_val95', 'conform7_vcv'),
+                 ('conform14_user_alias', 'conform14_apm_vcv')):
+        yield {'threads': [[a, a], [b]], 'bound': 1}
     if tier == 'thorough':
         for a in SEAM[:8]:
-            yield {'threads': [a, 'add_date', 'conform14_itrf08_vcv'], 'bound': 1}
+            yield {'threads': [[a], ['add_date'], ['conform14_itrf08_vcv']], 'bound': 1}
         for (a, b) in BOUND2_PAIRS:
-            yield {'threads': [a, b], 'bound': 2, 'opcode': True}
+            for k in range(nparts):
+                yield {'threads': [[a], [b]], 'bound': 2, 'opcode': True, 'part': [k, nparts]}
 
 
-def ev_sched(case, rec):
-    names = case['threads']
+def run_schedule(threads, files, prefix, opcode):
+    """ONE execution, in a forked pristine interpreter: the threads run under the given schedule prefix (default choice
+    afterwards); then every call is executed once more sequentially (probe) so that state corrupted by the interleaving
+    and read only by a LATER call is seen too."""
+    return in_child(lambda: run_schedule_here(threads, files, prefix, opcode, True))
+
+
+def run_schedule_here(threads, files, prefix, opcode, full_snapshot):
     ref = references()
-    files = traced_files(dirty_modules())
 
     def work():
-        stats_out = {'viol': [], 'outcomes': {}, 'execs': 0, 'points': 0}
-
-        def make_bodies():
-            return [(lambda n=n: execute(n)) for n in names]
-
-        def check(ex):
-            stats_out['execs'] += 1
-            writes = BAR.take()
-            # a change of a constant persists in this process, so the (expensive) full snapshot is taken when the
-            # barrier saw a write and once more after the whole exploration; transient writes are in the barrier log
-            const_same = (snp.snap_constants() == PRISTINE_CONST) if writes else True
-            results = []
-            for i, n in enumerate(names):
-                if ex.errors[i] is not None:
-                    results.append(('thread-error', repr(ex.errors[i])[:200]))
-                else:
-                    results.append(ex.results[i])
-            key = repr((results, const_same, len(writes) > 0))
-            stats_out['outcomes'][key] = stats_out['outcomes'].get(key, 0) + 1
-            bad = []
-            if writes:
-                bad.append(('write', writes[:4]))
-            if not const_same:
-                bad.append(('constants-changed', None))
-            for i, n in enumerate(names):
-                r = results[i]
-                if r[0] == 'thread-error':
-                    bad.append(('thread-error', r[1]))
-                    continue
-                res, changed = r
+        bodies = [(lambda calls=calls: [execute(n) for n in calls]) for calls in threads]
+        ex = sched.Execution(bodies, files, prefix, opcode=opcode).run()
+        writes = BAR.take()
+        bad = []
+        results = []
+        for i, calls in enumerate(threads):
+            if ex.errors[i] is not None:
+                bad.append(('thread-error', repr(ex.errors[i])[:200]))
+                results.append('error')
+                continue
+            results.append(ex.results[i])
+            for n, (res, changed) in zip(calls, ex.results[i]):
                 if changed:
                     bad.append(('args', n))
                 if res != ref[n]:
-                    bad.append(('result', n, str(res)[:200]))
-            if bad and len(stats_out['viol']) < 3:
-                stats_out['viol'].append({'schedule': list(ex.choices), 'trace': list(ex.trace_log)[:400], 'bad': bad})
-            if bad:
-                stats_out['nbad'] = stats_out.get('nbad', 0) + 1
-            if not const_same:
-                raise StopIteration     # the shared state is corrupted for good in this process: stop exploring
+                    bad.append(('result', n, str(res)[:160]))
+        if writes:
+            bad.append(('write', writes[:4]))
+        for calls in threads:              # sequential probe after the concurrent phase
+            for n in calls:
+                res, changed = execute(n)
+                if res != ref[n]:
+                    bad.append(('result-after', n, str(res)[:160]))
+        if BAR.take():
+            bad.append(('write-after', None))
+        # full snapshot (3 ms): whenever the barrier saw a write, on the default schedule and on every 8th schedule
+        if (writes or (full_snapshot and (not prefix or (sum(prefix) + len(prefix)) % 8 == 0))) \
+                and snp.snap_constants() != PRISTINE_CONST:
+            bad.append(('constants-changed', None))
+        return {'points': ex.points, 'choices': ex.choices, 'trace': ex.trace_log[:400], 'bad': bad,
+                'outcome': hash(repr((results, bool(bad))))}
+    return work()
+
+
+def ev_sched(case, rec):
+    threads = case['threads']
+    files = traced_files(dirty_modules())
+    opcode = bool(case.get('opcode'))
+    if 'schedule' in case:                 # replay of one recorded schedule
+        r = run_schedule(threads, files, case['schedule'], opcode)
+        r2 = run_schedule(threads, files, case['schedule'], opcode)
+        if r['trace'] != r2['trace']:
+            raise HarnessError('replaying a recorded schedule twice gave different traces')
+        if r['bad']:
+            rec.fail('recorded schedule breaks purity: %s' % sorted({b[0] for b in r['bad']}), site='purity:schedule:' + r['bad'][0][0],
+                     observed=r['bad'])
+        return
+    part = tuple(case['part']) if case.get('part') else None
+
+    def explore_all(forked):
+        out = {'viol': [], 'outcomes': set(), 'nbad': 0}
+
+        def check(ex):
+            out['outcomes'].add(ex['outcome'])
+            if ex['bad']:
+                out['nbad'] += 1
+                if len(out['viol']) < 3:
+                    out['viol'].append({'schedule': list(ex['choices']), 'trace': ex['trace'], 'bad': ex['bad']})
+        if forked:
+            st = sched.explore(lambda prefix: run_schedule(threads, files, prefix, opcode), case['bound'], check, part=part)
+        else:
+            st = sched.explore(lambda prefix: run_schedule_here(threads, files, prefix, opcode, False), case['bound'], check, part=part)
+            if snp.snap_constants() != PRISTINE_CONST:
+                out['nbad'] += 1
+                out['viol'].append({'schedule': [], 'trace': [], 'bad': [('constants-changed', None)]})
+        out['st'] = st
+        out['outcomes'] = sorted(out['outcomes'])
+        return out
+
+    # The tree never touches module-level data in the sequential pass (dirty_modules() empty): one forked interpreter
+    # serves the whole exploration of this case, because every execution leaves it pristine.  Otherwise (a mutant added
+    # a cache / scratch buffer) every single schedule runs in its own forked pristine interpreter.
+    forked = bool(dirty_modules())
+    out = None
+    if not forked:
+        def shared():
+            try:
+                return explore_all(False)
+            except sched.Divergence:
+                return 'diverged'
+        out = in_child(shared)
+        if out == 'diverged':
+            forked, out = True, None
+    if out is None:
         try:
-            st = sched.explore(make_bodies, files, case['bound'], check, opcode=bool(case.get('opcode')))
-            stats_out['points'] = st['max_points']
-        except StopIteration:
-            stats_out['stopped'] = True
-        if not stats_out.get('stopped') and snp.snap_constants() != PRISTINE_CONST:
-            stats_out['viol'].append({'schedule': [], 'trace': [], 'bad': [('constants-changed-silently', None)]})
-            stats_out['nbad'] = stats_out.get('nbad', 0) + 1
-        # determinism: the default schedule replayed twice gives identical observations
-        if not stats_out.get('stopped'):
-            e1 = sched.Execution(make_bodies(), files, []).run()
-            e2 = sched.Execution(make_bodies(), files, list(e1.choices)).run()
-            stats_out['deterministic'] = (e1.trace_log == e2.trace_log and repr(e1.results) == repr(e2.results))
-            BAR.take()
-        return stats_out
-    out = in_child(work)
-    rec.transitions += out['execs'] * len(names)
-    rec.nontriv((tuple(names), case['bound'], bool(case.get('opcode'))))
-    rec.state(('sched', tuple(names), len(out['outcomes'])))
-    rec.dev('schedules', out['execs'])
-    rec.dev('scheduling_points', out['points'])
-    if out.get('deterministic') is False:
-        raise HarnessError('replaying a recorded schedule gave different observations: %r' % (names,))
+            out = explore_all(True)
+        except sched.Divergence as e:
+            raise HarnessError('schedule replay diverged in a pristine interpreter for %r: %s' % (threads, e))
+    st = out['st']
+    rec.outcome('mode-forked' if forked else 'mode-shared')
+    # determinism: the default schedule replayed gives identical observations
+    e1 = run_schedule(threads, files, [], opcode)
+    e2 = run_schedule(threads, files, list(e1['choices']), opcode)
+    if e1['trace'] != e2['trace'] or e1['outcome'] != e2['outcome']:
+        raise HarnessError('replaying a recorded schedule gave different observations: %r' % (threads,))
+    rec.transitions += st['executions'] * sum(len(c) for c in threads)
+    rec.nontriv((repr(threads), case['bound'], opcode, repr(case.get('part'))))
+    rec.state(('sched', repr(threads), len(out['outcomes'])))
+    rec.dev('schedules', st['executions'])
+    rec.dev('scheduling_points', st['max_points'])
     if out['viol']:
         v = out['viol'][0]
         kinds = sorted({b[0] for b in v['bad']})
         rec.fail('under a thread interleaving the calls %s break purity (%s); %d of %d schedules, %d distinct outcomes'
-                 % (names, ','.join(kinds), out.get('nbad', 0), out['execs'], len(out['outcomes'])),
+                 % (threads, ','.join(kinds), out['nbad'], st['executions'], len(out['outcomes'])),
                  site='purity:schedule:' + kinds[0], observed=v, case=dict(case, schedule=v['schedule']),
-                 coords={'threads': names, 'bound': case['bound']})
+                 coords={'threads': threads, 'bound': case['bound']})
         rec.outcome('sched-bad')
     else:
         rec.outcome('sched-ok:%d-outcome' % len(out['outcomes']))
-    rec.sample({'threads': names, 'bound': case['bound'], 'schedules': out['execs'], 'scheduling_points': out['points'],
+    rec.sample({'threads': threads, 'bound': case['bound'], 'schedules': st['executions'], 'scheduling_points': st['max_points'],
                 'distinct_outcomes': len(out['outcomes'])})
 
 
